@@ -19,7 +19,7 @@ def parseOp (names : List String) (ws : List String) : Op :=
   | "const" :: n :: rows => .const (toNat! n) (parseKVs rows)
   | "reader" :: n :: c :: rows => .reader (toNat! n) (toNat! c) (parseKVs rows)
   | ["lines", n, k] => .lines (toNat! n) (toNat! k)
-  | ["map", s, f] => .map (r s) f .none
+  | ["map", s, f] | ["mapc", s, f] => .map (r s) f .none
   | ["mapm", s, f] => .map (r s) f .mat
   | ["mapp", s, f, n] => .map (r s) f (.procs (toNat! n))
   | ["mapx", s, f] => .map (r s) f .excl
